@@ -23,6 +23,9 @@ type c08Op struct {
 	// this send and the next one are issued at the same time: the second arrives while the first is
 	// inside its gas-estimate call to the chain node (for the model: two sends, in this order)
 	Overlap bool `json:"overlap,omitempty"`
+	// before this send the node cancels the transaction it sent last (a replacement reusing that
+	// transaction's nonce is submitted): invisible to the allocator's model, which it must not disturb
+	CancelBefore bool `json:"cancel_before,omitempty"`
 }
 type c08In struct {
 	Tag string  `json:"tag"`
@@ -55,6 +58,7 @@ func c08Run(t *testing.T, in c08In, rng *vrng) c08Obs {
 	obs := c08Obs{Events: []c08Ev{}}
 	to := common.HexToAddress("0xbeef")
 	skip := false
+	var lastHash common.Hash
 	for i, op := range in.Ops {
 		if skip {
 			skip = false
@@ -122,6 +126,16 @@ func c08Run(t *testing.T, in c08In, rng *vrng) c08Obs {
 		}
 		switch op.T {
 		case "send":
+			if op.CancelBefore && lastHash != (common.Hash{}) {
+				stub.mu.Lock()
+				stub.pendingErr, stub.fault = false, ""
+				stub.mu.Unlock()
+				ks.mu.Lock()
+				ks.failSign = false
+				ks.mu.Unlock()
+				_, _ = c.CancelTx(context.Background(), lastHash)
+				lastHash = common.Hash{}
+			}
 			stub.mu.Lock()
 			stub.pendingErr = op.Pending == nil
 			if op.Pending != nil {
@@ -133,10 +147,13 @@ func c08Run(t *testing.T, in c08In, rng *vrng) c08Obs {
 			ks.mu.Lock()
 			ks.failSign = op.Fault == "sign"
 			ks.mu.Unlock()
-			_, err := c.Send(context.Background(), &TxRequest{To: &to, CallData: []byte{1}, Value: big.NewInt(0)})
+			h, err := c.Send(context.Background(), &TxRequest{To: &to, CallData: []byte{1}, Value: big.NewInt(0)})
 			stub.mu.Lock()
 			acc := stub.accepted[before:]
 			stub.mu.Unlock()
+			if err == nil {
+				lastHash = h
+			}
 			if err == nil && len(acc) == 1 {
 				n := acc[0]
 				obs.Events = append(obs.Events, c08Ev{T: "sent", Nonce: &n, Pending: op.Pending})
@@ -203,6 +220,9 @@ func TestVerifC08(t *testing.T) {
 		{"outside-tx", []c08Op{{T: "send", Pending: u(3)}, {T: "send", Pending: u(9)}, {T: "send", Pending: u(4)}, {T: "send", Pending: u(11)}}},
 		{"restart", []c08Op{{T: "send", Pending: u(3)}, {T: "send", Pending: u(3)}, {T: "restart"}, {T: "send", Pending: u(5)}, {T: "send", Pending: u(5)}}},
 		{"pending-error", []c08Op{{T: "send", Pending: u(2)}, {T: "send"}, {T: "send", Pending: u(2)}}},
+		{"cancel-between-sends", []c08Op{{T: "send", Pending: u(5)}, {T: "send", Pending: u(6)}, {T: "send", Pending: u(7), CancelBefore: true}, {T: "send", Pending: u(8)},
+			{T: "send", Pending: u(8), CancelBefore: true}, {T: "send", Pending: u(10)}}},
+		{"cancel-between-sends-lagging", []c08Op{{T: "send", Pending: u(0)}, {T: "send", Pending: u(0), CancelBefore: true}, {T: "send", Pending: u(0)}, {T: "send", Pending: u(1), CancelBefore: true}}},
 		{"overlapping-sends", []c08Op{{T: "send", Pending: u(5), Overlap: true}, {T: "send", Pending: u(5)}, {T: "send", Pending: u(5)}}},
 		{"overlapping-sends-fresh", []c08Op{{T: "send", Pending: u(0), Overlap: true}, {T: "send", Pending: u(0)}, {T: "send", Pending: u(0), Overlap: true}, {T: "send", Pending: u(0)}}},
 		{"overlapping-after-fail", []c08Op{{T: "send", Pending: u(3)}, {T: "send", Pending: u(3), Fault: "submit"}, {T: "send", Pending: u(3), Overlap: true}, {T: "send", Pending: u(3)}, {T: "send", Pending: u(4)}}},
@@ -288,6 +308,12 @@ func TestVerifC08(t *testing.T) {
 				if rng.chance(20) {
 					tag = "random+stale-restart"
 				}
+			}
+		}
+		// some sends are preceded by a cancellation of the transaction sent last
+		for j := range ops {
+			if ops[j].T == "send" && rng.chance(8) {
+				ops[j].CancelBefore = true
 			}
 		}
 		// some neighbouring fault-free sends with the same answer are issued at the same time
